@@ -861,3 +861,26 @@ theorem cacheOf_request_agrees (w : World) (md : Nat) (start stop start' stop' :
     exact this
 
 end SV.Lin
+
+/-! ### blocks of a fork tree: the content number of a canonical block is its number -/
+namespace SV.Lin
+
+theorem execModuleE_self (w : World) (b : Nat) (acc : BlockAcc) (m : ModSpec) :
+    execModuleE w b b acc m = execModule w b acc m := by
+  unfold execModuleE
+  by_cases hc : canSkip acc.outs acc.deltas m = true
+  · simp [hc, execModule]
+  · by_cases hf : m.failAt = some b
+    · simp [hc, hf, execModule]
+    · simp only [hc, hf, if_false, Bool.false_eq_true]
+      unfold execModule
+      have hc' : canSkip acc.outs acc.deltas { m with failAt := none } = canSkip acc.outs acc.deltas m := rfl
+      simp only [hc', hc, hf, if_false, Bool.false_eq_true]
+      rfl
+
+theorem runModuleE_self (w : World) (d b : Nat) (acc : BlockAcc) (m : ModSpec) :
+    runModuleE w d b b acc m = runModule w d b acc m := by
+  unfold runModuleE runModule
+  simp only [execModuleE_self]
+
+end SV.Lin
